@@ -26,6 +26,7 @@ fn main() {
         "fault" => h::eng_fault::main(rest),
         "conf" => h::eng_conf::main(rest),
         "cli" => h::eng_cli::main(rest),
+        "keys" => h::eng_keys::main(rest),
         e => {
             eprintln!("unknown engine {e}");
             std::process::exit(2);
